@@ -261,6 +261,7 @@ RANGES = [(a, b) for a in range(0, 5) for b in range(a, 5)]
 
 
 class Versions(Family):
+    realtime = True     # runs on the wall clock (sockets, threads): a failure is re-run once before it counts (core.run_family)
     name = "versions"
     parallel = False
     quick_n = 2 * len(tls_paths.PATHS) * len(RANGES) + 3 * len(RANGES)
@@ -345,6 +346,7 @@ PLAIN_LINES = [b"gemini://localhost/\r\n", b"gemini://localhost/secret.gmi\r\n",
 
 
 class Plaintext(Family):
+    realtime = True     # runs on the wall clock (sockets, threads): a failure is re-run once before it counts (core.run_family)
     name = "plaintext"
     quick_n = 1600
     thorough_n = 160000
@@ -469,6 +471,7 @@ class PlaintextModel(Plaintext):
 # family 3: both backends over loopback sockets behind the real start_server
 # ------------------------------------------------------------------------------------------------
 class Live(Family):
+    realtime = True     # runs on the wall clock (sockets, threads): a failure is re-run once before it counts (core.run_family)
     name = "live"
     parallel = False
     quick_n = 4
@@ -562,6 +565,7 @@ class ClientHistories(Family):
     from step to step (permissive peer, security level 0, restricted to a version range; optionally
     resetting the first connection of a step, as an attacker or a broken stack would).  Observed at
     the peer: every completed handshake with its version and the request bytes that followed."""
+    realtime = True     # runs on the wall clock (sockets, threads): a failure is re-run once before it counts (core.run_family)
 
     name = "client"
     quick_n = 160
@@ -763,6 +767,7 @@ class Startup(Family):
     listener it built is probed: plaintext, permissive old-version TLS clients (with and without a client
     certificate) and a modern client as a control.  A server that refuses to start satisfies the
     property; one that starts must not serve below TLS 1.2 and must not serve without TLS."""
+    realtime = True     # runs on the wall clock (sockets, threads): a failure is re-run once before it counts (core.run_family)
 
     name = "startup"
     quick_n = 240
@@ -950,6 +955,7 @@ class CliCommands(Family):
     empty, pins certificate A or pins certificate B.  Observed at the peer: completed handshakes with
     their version and the request bytes that followed; observed at the user's end: the pin store
     (through TOFUDatabase().list_hosts() under a private HOME) before and after every step."""
+    realtime = True     # runs on the wall clock (sockets, threads): a failure is re-run once before it counts (core.run_family)
 
     name = "cli"
     quick_n = 96
